@@ -111,6 +111,7 @@ fn families(tier: Tier) -> &'static Vec<Box<dyn Family>> {
     match tier {
         Tier::Quick => QUICK.get_or_init(|| {
             vec![
+                Box::new(cvx_core::gen_resolve::FCallMain),
                 Box::new(cvx_core::gen_closure::FClosureNest),
                 Box::new(cvx_core::gen_closure::FClosure),
                 Box::new(cvx_core::gen_resolve::FResolve),
@@ -128,6 +129,7 @@ fn families(tier: Tier) -> &'static Vec<Box<dyn Family>> {
         }),
         Tier::Thorough => THOROUGH.get_or_init(|| {
             vec![
+                Box::new(cvx_core::gen_resolve::FCallMain),
                 Box::new(cvx_core::gen_closure::FClosureNest),
                 Box::new(cvx_core::gen_closure::FClosure),
                 Box::new(cvx_core::gen_resolve::FResolve),
